@@ -141,7 +141,7 @@ pub trait TrOps: Trait {
     fn down_lazy_element<M: MemBuilder, T: 'static>(_e: &Element<'_, Self, M>) -> T { unreachable!() }
     /// v.splice(range, lazy clones of src[i mod len]) with the instrumented iterator
     fn splice_lazy<M: MemBuilder + 'static, R>(
-        _v: &mut AnyVec<Self, M>, _src: &AnyVec<Self, M>, _n: usize, _claimed: usize,
+        _v: &mut AnyVec<Self, M>, _src: &AnyVec<Self, M>, _n: usize, _claimed: (usize, usize),
         _sb: Bound, _eb: Bound,
         _f: &mut dyn FnMut(&mut dyn ErasedRange<Self, M>) -> R,
     ) -> R { unreachable!() }
@@ -191,13 +191,13 @@ macro_rules! cloneable_trops {
             fn down_lazy_swap_remove<M: MemBuilder, T: 'static>(h: &SwapRemove<'_, Self, M>) -> T { lib!(h.lazy_clone().downcast::<T>()).expect("downcast of a lazy clone failed") }
             fn down_lazy_element<M: MemBuilder, T: 'static>(e: &Element<'_, Self, M>) -> T { lib!(e.lazy_clone().downcast::<T>()).expect("downcast of a lazy clone failed") }
             fn splice_lazy<M: MemBuilder + 'static, R>(
-                v: &mut AnyVec<Self, M>, src: &AnyVec<Self, M>, n: usize, claimed: usize,
+                v: &mut AnyVec<Self, M>, src: &AnyVec<Self, M>, n: usize, claimed: (usize, usize),
                 sb: Bound, eb: Bound,
                 f: &mut dyn FnMut(&mut dyn ErasedRange<Self, M>) -> R,
             ) -> R {
                 let refs: Vec<_> = (0..n).map(|i| src.at(if src.len() == 0 { 0 } else { i % src.len() })).collect();
                 let items: Vec<_> = refs.iter().map(|r| (**r).lazy_clone()).collect();
-                let it = Repl { inner: items.into_iter(), claimed };
+                let it = Repl::new(items.into_iter(), claimed);
                 let mut sp = lib!(v.splice((to_std(sb), to_std(eb)), it));
                 let r = f(&mut sp);
                 lib!(drop(sp));
@@ -241,10 +241,18 @@ impl<T: Elem> AnyValue for HBox<T> {
     fn value_typeid(&self) -> TypeId { self.ty }
 }
 
-/// Replacement iterator: instrumented next(), len() may lie.
+/// Replacement iterator: instrumented next(), len() may lie - and may answer differently the second time
+/// it is asked (`claimed` = (first answer, every later answer)).
 pub struct Repl<I: Iterator> {
     pub inner: I,
-    pub claimed: usize,
+    pub claimed: (usize, usize),
+    pub asked: std::cell::Cell<bool>,
+}
+impl<I: Iterator> Repl<I> {
+    pub fn new(inner: I, claimed: (usize, usize)) -> Self { Repl { inner, claimed, asked: std::cell::Cell::new(false) } }
+    fn answer(&self) -> usize {
+        if self.asked.replace(true) { self.claimed.1 } else { self.claimed.0 }
+    }
 }
 impl<I: Iterator> Iterator for Repl<I> {
     type Item = I::Item;
@@ -253,10 +261,10 @@ impl<I: Iterator> Iterator for Repl<I> {
         crate::elem::user_call();
         self.inner.next()
     }
-    fn size_hint(&self) -> (usize, Option<usize>) { (self.claimed, Some(self.claimed)) }
+    fn size_hint(&self) -> (usize, Option<usize>) { let a = self.answer(); (a, Some(a)) }
 }
 impl<I: Iterator> ExactSizeIterator for Repl<I> {
-    fn len(&self) -> usize { self.claimed }
+    fn len(&self) -> usize { self.answer() }
 }
 
 pub fn to_std(b: Bound) -> std::ops::Bound<usize> {
@@ -272,6 +280,8 @@ pub trait ErasedRange<Tr: ?Sized + Trait, M: MemBuilder + 'static> {
     /// The item's lifetime is detached from the iterator borrow (as in the crate: items
     /// borrow the vector, not the iterator); the interpreter consumes it at once.
     fn next_item<'x>(&mut self, front: bool) -> Option<Element<'x, Tr, M>>;
+    /// Iterator::nth(n) / DoubleEndedIterator::nth_back(n)
+    fn nth_item<'x>(&mut self, front: bool, n: usize) -> Option<Element<'x, Tr, M>>;
     fn hint(&self) -> usize;
 }
 impl<'a, Tr: ?Sized + Trait, M: MemBuilder + 'static, I> ErasedRange<Tr, M> for I
@@ -280,6 +290,10 @@ where
 {
     fn next_item<'x>(&mut self, front: bool) -> Option<Element<'x, Tr, M>> {
         let it = if front { lib!(self.next()) } else { lib!(self.next_back()) };
+        it.map(|e| unsafe { std::mem::transmute::<Element<'a, Tr, M>, Element<'x, Tr, M>>(e) })
+    }
+    fn nth_item<'x>(&mut self, front: bool, n: usize) -> Option<Element<'x, Tr, M>> {
+        let it = if front { lib!(self.nth(n)) } else { lib!(self.nth_back(n)) };
         it.map(|e| unsafe { std::mem::transmute::<Element<'a, Tr, M>, Element<'x, Tr, M>>(e) })
     }
     fn hint(&self) -> usize {
@@ -392,6 +406,7 @@ impl<Tr: ?Sized + TrOps, M: BackOps> World<Tr, M> {
                 }
                 Self::sink::<T, H>(h, k2, get_dst, ret);
             }
+            Sink::Nth(..) => panic!("nth is a call of a range iterator, not a sink of a handle"),
         }
     }
 
@@ -436,6 +451,7 @@ impl<Tr: ?Sized + TrOps, M: BackOps> World<Tr, M> {
                 }
                 Self::item_sink::<T>(e, k2, get_dst, ret);
             }
+            Sink::Nth(..) => panic!("nested nth"),
         }
     }
 
@@ -467,7 +483,11 @@ impl<Tr: ?Sized + TrOps, M: BackOps> World<Tr, M> {
         get_dst: &mut dyn FnMut(usize) -> *mut AnyVec<Tr, M>, ret: &mut Vec<u64>,
     ) {
         for (front, k) in pat {
-            match it.next_item(*front) {
+            let (item, k) = match k {
+                Sink::Nth(n, inner) => (it.nth_item(*front, *n), &**inner),
+                _ => (it.next_item(*front), k),
+            };
+            match item {
                 None => {
                     ret.push(0);
                     ret.push(0);
@@ -735,7 +755,7 @@ impl<Tr: ?Sized + TrOps, M: BackOps> World<Tr, M> {
                     (Api::E, RKind::Wrap) => {
                         assert!(wrong_at.is_none(), "wrapper items are of one static type");
                         let items: Vec<_> = (0..*n).map(|_| AnyValueWrapper::new(T::new())).collect();
-                        let rep = Repl { inner: items.into_iter(), claimed: *claimed };
+                        let rep = Repl::new(items.into_iter(), *claimed);
                         let mut it = lib!(vv.splice((to_std(*sb), to_std(*eb)), rep));
                         ret.push(ErasedRange::hint(&it) as u64);
                         Self::walk_erased::<T>(&mut it, pat, &mut get_dst, &mut ret);
@@ -743,7 +763,7 @@ impl<Tr: ?Sized + TrOps, M: BackOps> World<Tr, M> {
                     }
                     (Api::E, RKind::Box_) => {
                         let items: Vec<_> = (0..*n).map(|i| HBox::new(T::new(), ty(i))).collect();
-                        let rep = Repl { inner: items.into_iter(), claimed: *claimed };
+                        let rep = Repl::new(items.into_iter(), *claimed);
                         let mut it = lib!(vv.splice((to_std(*sb), to_std(*eb)), rep));
                         ret.push(ErasedRange::hint(&it) as u64);
                         Self::walk_erased::<T>(&mut it, pat, &mut get_dst, &mut ret);
@@ -763,7 +783,7 @@ impl<Tr: ?Sized + TrOps, M: BackOps> World<Tr, M> {
                     }
                     (Api::T, RKind::Wrap) => {
                         let items: Vec<T> = (0..*n).map(|_| T::new()).collect();
-                        let rep = Repl { inner: items.into_iter(), claimed: *claimed };
+                        let rep = Repl::new(items.into_iter(), *claimed);
                         let mut tv = vv.downcast_mut::<T>().unwrap();
                         let mut it = lib!(tv.splice((to_std(*sb), to_std(*eb)), rep));
                         Self::walk_typed::<T, _>(&mut it, pat, &mut get_dst, &mut ret);
@@ -1107,7 +1127,10 @@ impl<Tr: ?Sized + TrOps, M: BackOps> World<Tr, M> {
         };
         ret.push(hint(it));
         for (front, k) in pat {
-            let x = if *front { lib!(it.next()) } else { lib!(it.next_back()) };
+            let (x, k) = match k {
+                Sink::Nth(n, inner) => (if *front { lib!(it.nth(*n)) } else { lib!(it.nth_back(*n)) }, &**inner),
+                _ => (if *front { lib!(it.next()) } else { lib!(it.next_back()) }, k),
+            };
             match x {
                 None => { ret.push(0); ret.push(0); ret.push(hint(it)); }
                 Some(x) => {
